@@ -243,9 +243,17 @@ AXIS_FAMILIES = {
     # allocations of 1e7 units with decimal coordinates: the rounding of a halving exceeds a tolerance that does not
     # grow with the square of the scale
     'B7': (lambda i: [F(0), F(7628044, 10), F(10000000), F(120000003, 10)][i], lambda j: [F(0), F(5000000), F(70000001, 10), F(9000000)][j]),
+    # cells of 1-2 units at coordinates around 2e9 (a small block in the far corner of a huge layout): boundaries that a
+    # RELATIVE tolerance on coordinates would merge
+    'FAR9': (lambda i: F(2000000000) + [F(0), F(1), F(3), F(4)][i], lambda j: F(3000000000) + [F(0), F(2), F(3), F(5)][j]),
     'SLVX': (lambda i: [F(0), F(1), F(128), F(256)][i], lambda j: [F(0), F(64), F(128), F(192)][j]),
     'SLVY': (lambda i: [F(0), F(64), F(128), F(192)][i], lambda j: [F(0), F(1), F(128), F(256)][j]),
 }
+
+
+# far-from-origin families: the comparison tolerance refers to the cells (a few units; 1e-5 is twenty ulps of the
+# coordinates and 1e-5 of a cell), not to the magnitude of the coordinates
+FAR_SCALE = 1e4
 
 
 def fam_axes(fam):
@@ -360,12 +368,12 @@ def shard_plan(tier):
     out = []
     if tier == 'quick':
         plan = [('HALF', 3, 2, 3, True), ('DEC1', 2, 3, 2, False), ('STRX', 3, 2, 2, False), ('STRY', 2, 3, 2, False), ('P300', 3, 2, 2, False), ('B7', 3, 2, 2, False),
-                ('SLVX', 3, 3, 3, False), ('SLVY', 3, 3, 3, False)]
+                ('SLVX', 3, 3, 3, False), ('SLVY', 3, 3, 3, False), ('FAR9', 3, 2, 2, False)]
     else:
         # depth 2 with all 8 operations on the larger plan; depth 3 (6 operations) on the small plan marked deep=True
         plan = [('HALF', 3, 2, 3, True), ('DEC1', 3, 2, 3, True), ('DEC3', 2, 3, 3, False), ('STRX', 3, 2, 3, False), ('STRY', 2, 3, 3, False),
                 ('P300', 3, 2, 3, False), ('DEC7', 4, 1, 4, False), ('HALF', 2, 2, 2, 'deep'), ('DEC1', 2, 1, 2, 'deep'), ('B7', 3, 2, 3, False),
-                ('SLVX', 3, 3, 3, False), ('SLVY', 3, 3, 3, False)]
+                ('SLVX', 3, 3, 3, False), ('SLVY', 3, 3, 3, False), ('FAR9', 3, 2, 3, False), ('FAR9', 2, 3, 3, False)]
     for (fam, nx, ny, kmax, rich) in plan:
         n = len(layouts(nx, ny, kmax))
         step = 4 if not fam.startswith('SLV') else 48
@@ -568,6 +576,8 @@ def run_shard_common(mode, shard, tier, res):
     fam = shard['fam']
     fx, fy = fam_axes(fam)
     scale = float(max(fx(shard['nx']), fy(shard['ny'])))
+    if fam.startswith('FAR'):
+        scale = FAR_SCALE
     n0 = 0
     first = None
     for cells in shard_states(shard):
@@ -597,6 +607,8 @@ def check_case_common(mode, case, res):
     fam = case['fam']
     cells = cells_from_desc(case['init'])
     scale = float(max(max(c.r[2], c.r[3]) for c in cells))
+    if fam.startswith('FAR'):
+        scale = FAR_SCALE
     tol = 1e-9 * scale
     reset_frame_state()
     if fam.startswith('P'):
